@@ -43,8 +43,10 @@ class VariableElimination(Inference):
         dict: Modified working factors.
         """
 
+        # Lists, not sets: DiscreteFactor compares and hashes by content, so a set
+        # would silently drop a factor that is equal to another factor of the model.
         working_factors = {
-            node: {(factor, None) for factor in self.factors[node]}
+            node: [(factor, None) for factor in self.factors[node]]
             for node in self.factors
         }
 
@@ -57,7 +59,7 @@ class VariableElimination(Inference):
                     )
                     for var in factor_reduced.scope():
                         working_factors[var].remove((factor, origin))
-                        working_factors[var].add((factor_reduced, evidence_var))
+                        working_factors[var].append((factor_reduced, evidence_var))
                 del working_factors[evidence_var]
         return working_factors
 
@@ -171,11 +173,14 @@ class VariableElimination(Inference):
 
         # Dealing with the case when variables are not provided.
         if not variables:
+            # Each factor is listed under every variable of its scope; take it once.
             all_factors = []
-            for factor_li in self.factors.values():
-                all_factors.extend(factor_li)
+            for node, factor_li in self.factors.items():
+                all_factors.extend(
+                    [factor for factor in factor_li if factor.scope()[0] == node]
+                )
             if joint:
-                return factor_product(*set(all_factors))
+                return factor_product(*all_factors)
             else:
                 return set(all_factors)
 
@@ -207,16 +212,17 @@ class VariableElimination(Inference):
             phi = getattr(phi, operation)([var], inplace=False)
             del working_factors[var]
             for variable in phi.variables:
-                working_factors[variable].add((phi, var))
+                working_factors[variable].append((phi, var))
             eliminated_variables.add(var)
 
         # Step 4: Prepare variables to be returned.
-        final_distribution = set()
+        # Each remaining factor is listed under every variable of its scope; take it once.
+        final_distribution = []
         for node in working_factors:
             for factor, origin in working_factors[node]:
                 if not set(factor.variables).intersection(eliminated_variables):
-                    final_distribution.add((factor, origin))
-        final_distribution = [factor for factor, _ in final_distribution]
+                    if factor.variables[0] == node:
+                        final_distribution.append(factor)
 
         if joint:
             if isinstance(self.model, BayesianNetwork):
